@@ -7,9 +7,13 @@
 
 package uri
 
-import "strings"
+import (
+	"io"
+	"strings"
+)
 
 //@ use strings
+//@ use errors
 
 // ---------------------------------------------------------------------------
 // 1. Spec functions: percent-escapes (RFC 3986) — written from the RFC, not from the code
@@ -271,6 +275,110 @@ func countEsc(s string) int {
 func verifCookieRoundTrip(s string) (string, bool) { return unescapeCookie(escapeCookie(s)) }
 
 // ---------------------------------------------------------------------------
+// 2c. Contracts: uri/cursor.go, uri/object.go (encoder), uri/receiver.go (delimiter check),
+//     PathDecoder.DecodeValue
+// ---------------------------------------------------------------------------
+
+//@ func (c *cursor) readUntil(until byte) (v string, err error)
+//@   requires wf: 0 <= c.pos && c.pos <= len(c.src)
+//@   modifies c.pos
+//@   ensures frame: c.src == old(c.src) && 0 <= c.pos && c.pos <= len(c.src)
+//@   ensures hit:   indexB(old(c.src)[old(c.pos):], until) >= 0 ==> err == nil &&
+//@                    v == old(c.src)[old(c.pos):old(c.pos)+indexB(old(c.src)[old(c.pos):], until)] &&
+//@                    c.pos == old(c.pos) + indexB(old(c.src)[old(c.pos):], until) + 1
+//@   ensures miss:  indexB(old(c.src)[old(c.pos):], until) < 0 ==> err == io.EOF && v == "" && c.pos == len(c.src)
+//@   uses indexBRange
+
+//@ func (c *cursor) readValue(sep byte) (v string, hasNext bool, err error)
+//@   requires wf:    0 <= c.pos && c.pos <= len(c.src)
+//@   requires ascii: sep < 0x80
+//@   modifies c.pos
+//@   ensures frame: c.src == old(c.src) && 0 <= c.pos && c.pos <= len(c.src)
+//@   ensures more:  indexB(old(c.src)[old(c.pos):], sep) >= 0 ==> err == nil && hasNext &&
+//@                    v == old(c.src)[old(c.pos):][:indexB(old(c.src)[old(c.pos):], sep)] &&
+//@                    c.pos == old(c.pos) + indexB(old(c.src)[old(c.pos):], sep) + 1
+//@   ensures last:  indexB(old(c.src)[old(c.pos):], sep) < 0 && old(c.pos) < len(c.src) ==> err == nil && !hasNext &&
+//@                    v == old(c.src)[old(c.pos):] && c.pos == len(c.src)
+//@   ensures empty: indexB(old(c.src)[old(c.pos):], sep) < 0 && old(c.pos) == len(c.src) ==> err == io.EOF && !hasNext && v == "" && c.pos == old(c.pos)
+//@   uses indexBRange
+
+//@ func (c *cursor) eat(r byte) (ok bool)
+//@   requires wf: 0 <= c.pos && c.pos <= len(c.src)
+//@   modifies c.pos
+//@   ensures frame: c.src == old(c.src) && 0 <= c.pos && c.pos <= len(c.src)
+//@   ensures spec:  ok == (old(c.pos) < len(c.src) && c.src[old(c.pos)] == r) && c.pos == old(c.pos) + vIte(ok, 1, 0)
+
+//@ func (c *cursor) readAll() (v string, err error)
+//@   requires wf: 0 <= c.pos && c.pos <= len(c.src)
+//@   modifies c.pos
+//@   ensures frame: c.src == old(c.src)
+//@   ensures empty: old(c.pos) == len(c.src) ==> err == io.EOF && v == "" && c.pos == old(c.pos)
+//@   ensures rest:  old(c.pos) < len(c.src) ==> err == nil && v == c.src[old(c.pos):] && c.pos == len(c.src)
+
+// joinFields: the flat-object serialization of the OpenAPI style table (name kv value, fields
+// separated by fs), written from the table.
+func joinFields(fs []Field, kv, sep byte) string {
+	if len(fs) == 0 {
+		return ""
+	}
+	if len(fs) == 1 {
+		return fs[0].Name + str1(kv) + fs[0].Value
+	}
+	return fs[0].Name + str1(kv) + fs[0].Value + str1(sep) + joinFields(fs[1:], kv, sep)
+}
+
+// joinFrom: joinFields of the fields from index i on, with a leading separator when i > 0.
+func joinFrom(fs []Field, i int, kv, sep byte) string {
+	if i >= len(fs) {
+		return ""
+	}
+	if i == 0 {
+		return fs[0].Name + str1(kv) + fs[0].Value + joinFrom(fs, 1, kv, sep)
+	}
+	return str1(sep) + fs[i].Name + str1(kv) + fs[i].Value + joinFrom(fs, i+1, kv, sep)
+}
+
+//@ func encodeObject(kvSep byte, fieldSep byte, fields []Field) (out string)
+//@   nooverflow size is a capacity hint: the sum of the lengths of strings that exist in memory
+//@   ensures table: out == joinFrom(fields, 0, kvSep, fieldSep)
+//@   loop 0 vars rangeindex int, size int
+//@   loop 0 invariant range: -1 <= rangeindex && rangeindex < len(fields)
+//@   loop 0 invariant size:  size >= 2 * (rangeindex + 1)
+//@   loop 1 vars rangeindex int, sb *strings.Builder
+//@   loop 1 invariant range: -1 <= rangeindex && rangeindex < len(fields)
+//@   loop 1 invariant acc:   sb.String() + joinFrom(fields, rangeindex+1, kvSep, fieldSep) == joinFrom(fields, 0, kvSep, fieldSep)
+//@   loop 1 assert first:    rangeindex+1 == 0 && len(fields) > 0 ==> joinFrom(fields, 0, kvSep, fieldSep) == fields[0].Name + str1(kvSep) + fields[0].Value + joinFrom(fields, 1, kvSep, fieldSep)
+//@   loop 1 assert next:     rangeindex+1 > 0 && rangeindex+1 < len(fields) ==> joinFrom(fields, rangeindex+1, kvSep, fieldSep) == str1(fieldSep) + fields[rangeindex+1].Name + str1(kvSep) + fields[rangeindex+1].Value + joinFrom(fields, rangeindex+2, kvSep, fieldSep)
+
+//@ func checkNotContains(s string, chars string) (err error)
+//@   ensures refuse: (err == nil) == (forall j in (0, len(s)) :: !memberB(chars, s[j]))
+
+func validPathStyle(s PathStyle) bool {
+	return s == PathStyleSimple || s == PathStyleLabel || s == PathStyleMatrix
+}
+
+// specPathValue: the serialization of a primitive path parameter (OpenAPI style table,
+// before percent-encoding): simple "blue", label ".blue", matrix ";color=blue".
+func specPathValue(style PathStyle, name, val string) string {
+	switch style {
+	case PathStyleLabel:
+		return "." + val
+	case PathStyleMatrix:
+		return ";" + name + "=" + val
+	}
+	return val
+}
+
+// The decoder recovers a non-empty primitive from its table serialization (names free of '=').
+//@ func (d *PathDecoder) DecodeValue() (v string, err error)
+//@   requires style: validPathStyle(d.style)
+//@   requires cur:   d.cur != nil && 0 <= d.cur.pos && d.cur.pos <= len(d.cur.src)
+//@   modifies d.cur.pos
+//@   ensures simple: d.style == PathStyleSimple && old(d.cur.pos) < len(d.cur.src) ==> err == nil && v == d.cur.src[old(d.cur.pos):]
+//@   ensures label:  d.style == PathStyleLabel && old(d.cur.pos)+1 < len(d.cur.src) && d.cur.src[old(d.cur.pos)] == '.' ==> err == nil && v == d.cur.src[old(d.cur.pos)+1:]
+//@   ensures nolabel: d.style == PathStyleLabel && (old(d.cur.pos) >= len(d.cur.src) || d.cur.src[old(d.cur.pos)] != '.') ==> err != nil
+
+// ---------------------------------------------------------------------------
 // 3. Lemmas
 // ---------------------------------------------------------------------------
 
@@ -301,3 +409,4 @@ func verifCookieRoundTrip(s string) (string, bool) { return unescapeCookie(escap
 //@   trigger indexB(x, '%')
 
 var _ strings.Builder
+var _ = io.EOF
